@@ -118,6 +118,7 @@ func c03Run(c *Ctx) {
 		layers = append(layers, sweepLayer{"L2", GenOpts{OneGate: true, LeafSet: 2}, 2, fs[:3]})
 	}
 	layers = append(layers, sweepLayer{"scale", GenOpts{Scale: true, ScaleThorough: c.Thorough()}, 0, fs[:3]})
+	layers = append(layers, rootedLayers(c.Thorough(), fs[:3])...)
 	layers = append(layers, sweepLayer{"L0-rich", GenOpts{LeafSet: 2, OneGate: true, RichEnv: true}, 0, fs[:2]})
 	var corpus []string
 	sweep(c, layers, func(sc *sweepCase) bool {
@@ -229,7 +230,7 @@ func c03Run(c *Ctx) {
 func init() {
 	register(&PropDef{
 		ID: "C03", Level: "exploration",
-		Rule:        "namespace-bearing pipeline stages in 18 forms (string / document with its members in several orders) at nesting depth 0..3 with and without --redactNamespaces; G at <=1 non-default production (thorough <=2), all 6 gates (also lines the tool must not touch) and all containers, plus T = every vocabulary path x 53 value kinds x 5 tree shapes x 10 placements; flag sets over N,B,I,W,R,Y,Z (never --redactFieldNames); inputs with duplicate sibling keys are skipped; oracle = the output parses (own parser) as one object on one line whose tree has the same member names in the same order, the same array lengths and the same leaf types as the input tree. distinct = distinct input lines" + scaleRule,
+		Rule:        "namespace-bearing pipeline stages in 18 forms (string / document with its members in several orders) at nesting depth 0..3 with and without --redactNamespaces; G at <=1 non-default production (thorough <=2), all 6 gates (also lines the tool must not touch) and all containers, plus T = every vocabulary path x 53 value kinds x 5 tree shapes x 10 placements; flag sets over N,B,I,W,R,Y,Z (never --redactFieldNames); inputs with duplicate sibling keys are skipped; oracle = the output parses (own parser) as one object on one line whose tree has the same member names in the same order, the same array lengths and the same leaf types as the input tree. distinct = distinct input lines" + scaleRule + rootedRule,
 		Assumptions: []string{"the independent JSON parser of the harness is the judge of well-formedness"},
 		Run:         c03Run,
 	})
